@@ -84,7 +84,7 @@ func reEntry(re string) ReEntry {
 	return ReEntry{Re: re}
 }
 
-var valuePool = []string{"a", "b", "c", "users", "v1", "x.y", "a-b", "é", "A", "42", "ab", "a:b1", "3:4", "x1", "7", "NL", "a.json", "pre-x", "zz", "a b", "a:b", "acme:eu", "x:run"}
+var valuePool = []string{"a", "b", "c", "users", "v1", "x.y", "a-b", "é", "A", "42", "ab", "a:b1", "3:4", "x1", "7", "NL", "a.json", "pre-x", "zz", "a b", "a:b", "acme:eu", "x:run", "a\nb", "\n"}
 
 var verbPool = []string{"run", "stop"}
 
@@ -530,7 +530,7 @@ func tableLits(tb model.TableSpec) []string {
 	return out
 }
 
-var hostilePaths = []string{"", "//", "/:", "/{", "/}", "/a//b", "a/b", "//a", "/a/b//", "/:run", "/.foo", "/{x}", "/a/{v:*}", "/a:", "/%2F", "/a\x00b", "/é/\U0001F600", "/a/./b", "/a/../b", "/ ", "/a/ /b", "///"}
+var hostilePaths = []string{"", "//", "/:", "/{", "/}", "/a//b", "a/b", "//a", "/a/b//", "/:run", "/.foo", "/{x}", "/a/{v:*}", "/a:", "/%2F", "/a\x00b", "/é/\U0001F600", "/a/./b", "/a/../b", "/ ", "/a/ /b", "///", "/a\nb", "/\n", "/a/b\n"}
 
 func joinPath(segs []string) string {
 	if len(segs) == 0 {
